@@ -9,7 +9,14 @@ spec/Reduce.tla (checked by C13 against the same Live/Ops definitions).
   (3) the real walk (serial and parallel) explored under seeded random / adversarial schedules for pyramids whose
       expected operation set TLC computed; monitors are the property's sentences.
   (4) real processes with ticketed callbacks.
+  (5) inputs: tile filters that decide from the tile's CORNER COORDINATES (position filters lifted to geometry; real
+      latitude/longitude boxes), in both TOAST coordinate systems x sub-pyramid apexes; the accept set is the filter
+      evaluated on the reference geometry of the pyramid's own coordinate system and TLC computes the operations.
+  (6) environment: the operating system refuses the k-th worker (Process.start raises OSError) - spec/WalkParStart.tla
+      (worker-creation phase + StartFails with its two admissible outcomes), exhaustive, replayed, and injected into the
+      fake multiprocessing under the schedule policies; what the workers left behind do afterwards is observed too.
 """
+import errno
 import json
 import os
 
@@ -66,6 +73,35 @@ PROPERTY ReturnsWhenFaultFree
 CHECK_DEADLOCK FALSE
 """
 
+# spec/WalkParStart.tla: the worker-creation phase and the environment refusing the k-th Process.start
+START_CFG = """SPECIFICATION SSpec
+CONSTANTS
+ Depth = %(depth)d
+ NW = %(nw)d
+ Cap = %(cap)d
+ AcceptSets <- ConfAccept
+ Apexes <- ConfApex
+ FaultSets <- ConfFaults
+ StartFaults <- ConfStart
+ Checked = TRUE
+INVARIANT OnlyOps
+INVARIANT AtMostOnce
+INVARIANT ChildrenFirst
+INVARIANT DoneOK
+INVARIANT NoLossAtSet
+INVARIANT PopSafe
+INVARIANT NoDoubleRelease
+INVARIANT NeverSwallowed
+INVARIANT SRaisedOnlyOnFault
+INVARIANT BornOK
+INVARIANT StartFailureSeen
+PROPERTY ChildrenFirstStep
+PROPERTY Termination
+PROPERTY ReturnsWhenNothingFails
+PROPERTY RefusalEnds
+CHECK_DEADLOCK FALSE
+"""
+
 SIMCFG = """SPECIFICATION SimSpec
 CONSTANTS
  Depth = %(depth)d
@@ -81,12 +117,17 @@ INVARIANT Emit
 CHECK_DEADLOCK FALSE
 """
 
+START_SIMCFG = SIMCFG.replace(" Checked = TRUE\n", " Checked = TRUE\n StartFaults <- ConfStart\n")
 
-def conf_module(name, base, accepts, apexes, faults="none"):
+
+def conf_module(name, base, accepts, apexes, faults="none", start=None):
     f = {"none": "{{}}", "one": "{{}} \\cup {{p} : p \\in UpTo(Depth)}"}[faults]
     # T_SparseAgrees: the sparse computation of the live set (SparseLive.tla, used for deep pyramids) is the live set
-    return tla.module(name, [base], [("ConfAccept", tla.lit(set(accepts))), ("ConfApex", tla.lit(set(apexes))), ("ConfFaults", f),
-                                     "ASSUME \\A cA \\in ConfAccept, ca \\in ConfApex : SLiveSet(cA, ca) = LiveSet(cA, ca)"])
+    defs = [("ConfAccept", tla.lit(set(accepts))), ("ConfApex", tla.lit(set(apexes))), ("ConfFaults", f),
+            "ASSUME \\A cA \\in ConfAccept, ca \\in ConfApex : SLiveSet(cA, ca) = LiveSet(cA, ca)"]
+    if start is not None:       # which Process.start the environment may refuse (WalkParStart.tla; 0 = none)
+        defs.append(("ConfStart", tla.lit(set(start))))
+    return tla.module(name, [base], defs)
 
 
 def build_pyramid(depth, acc, apex, generic=False):
@@ -100,7 +141,7 @@ def build_pyramid(depth, acc, apex, generic=False):
     return p
 
 
-def walk_main(depth, acc, apex, nw, log, faults=(), generic=False, flavour="plain"):
+def walk_main(depth, acc, apex, nw, log, faults=(), generic=False, flavour="plain", build=None):
     def cb(pos):
         key = tuple(pos)
         simmp.cb_sync("cb_start", key, log)
@@ -108,23 +149,171 @@ def walk_main(depth, acc, apex, nw, log, faults=(), generic=False, flavour="plai
             from checks.c03 import raise_fault
             raise_fault(flavour, key)
         simmp.cb_sync("cb_end", key, log)
-    return lambda: build_pyramid(depth, acc, apex, generic).walk(cb, parallel=nw)
+    if build is None:
+        build = lambda: build_pyramid(depth, acc, apex, generic)      # noqa: E731
+    return lambda: build().walk(cb, parallel=nw)
+
+
+# ------------------------------------------------------------------------------------------------
+# tile filters that decide from the tile's corner coordinates, in the pyramid's own coordinate system
+# ------------------------------------------------------------------------------------------------
+
+_REF = {}
+
+
+def coordsystems():
+    from toasty.toast import ToastCoordinateSystem as CS
+    return [("astronomical", CS.ASTRONOMICAL), ("planetary", CS.PLANETARY)]
+
+
+def ref_tiles(csname, cs, depth):
+    """Reference geometry of one coordinate system: the Tile of every position of levels 1..depth as create_single_tile
+    gives it for THAT system (the lattice embedding C04 judges against TLC's ToastLattice tables)."""
+    from toasty import toast
+    from toasty.pyramid import Pos
+    t = _REF.setdefault(csname, {})
+    for n in range(1, depth + 1):
+        if (n, 0, 0) not in t:
+            for q_ in level(n):
+                t[q_] = toast.create_single_tile(Pos(*q_), coordsys=cs)
+    return t
+
+
+def centre_key(corners):
+    import numpy as np
+    c = np.array([[float(p_[0]), float(p_[1])] for p_ in corners])
+    v = np.stack([np.cos(c[:, 1]) * np.cos(c[:, 0]), np.cos(c[:, 1]) * np.sin(c[:, 0]), np.sin(c[:, 1])], axis=1).sum(axis=0)
+    v /= np.linalg.norm(v)
+    return tuple(int(round(float(t) * 1e7)) for t in v)
+
+
+def lifted_filter(csname, cs, depth, acc):
+    """The position filter `acc` lifted to geometry: a tile is accepted iff the centre of the corners it is SHOWN with is the
+    centre of an accepted position of its level in coordinate system cs (so the filter sees through a tile that carries the
+    right position and the wrong place on the sphere)."""
+    table = _REF.setdefault(("centres", csname), {})
+    for q_, t in ref_tiles(csname, cs, depth).items():
+        if q_ not in table:
+            table[q_] = (q_[0], centre_key(t.corners))
+    back = {v: k for k, v in table.items()}
+
+    def flt(tile):
+        q_ = back.get((tile.pos.n, centre_key(tile.corners)))
+        return q_ is not None and q_ in acc
+    return flt
+
+
+def box_filter(box):
+    """A latitude/longitude bounding box (radians) as the library's own footprint filter."""
+    from toasty.samplers import _latlon_tile_filter
+    return _latlon_tile_filter(*box)
+
+
+def box_accept(csname, cs, depth, box):
+    """The box filter as a set of accepted positions: the filter evaluated on the reference tile of every position of the
+    coordinate system.  (An input for TLC, which computes the live set and the operations from it.)"""
+    f = box_filter(box)
+    return frozenset(q_ for q_, t in ref_tiles(csname, cs, depth).items() if q_[0] <= depth and f(t))
+
+
+def build_geo(depth, flt, cs, apex):
+    from toasty.pyramid import Pyramid, Pos
+    p = Pyramid.new_toast_filtered(depth, flt, coordsys=cs)
+    if tuple(apex) != ROOT:
+        p = p.subpyramid(Pos(*apex))
+    return p
+
+
+# ------------------------------------------------------------------------------------------------
+# the environment refusing a worker: Process.start of the fake multiprocessing as a scheduling point that can fail
+# ------------------------------------------------------------------------------------------------
+
+START_ERRORS = {"EAGAIN": (errno.EAGAIN, "Resource temporarily unavailable"), "ENOMEM": (errno.ENOMEM, "Cannot allocate memory")}
+
+
+class StartHook(object):
+    """Wraps the fake Process: every start() becomes a sync point ("proc_start") of the process calling it; the k-th start
+    of the run is refused - it raises OSError(err) and no process comes into being - (k = 0: none is)."""
+
+    def __init__(self, k, err="EAGAIN"):
+        self.k, self.err, self.calls, self.refused = k, err, 0, False
+
+    def install(self):
+        import multiprocessing as mp
+        base, hook = mp.Process, self
+
+        class HookedProcess(base):
+            def start(self_):
+                hook.calls += 1
+                n = hook.calls
+
+                def outs():
+                    if n == hook.k:
+                        def eff():
+                            hook.refused = True
+                            simmp._bump()
+                            return OSError(*START_ERRORS[hook.err])
+                        return {"fail": eff}
+                    return {"ok": lambda: None}
+                simmp.S.sync(("proc_start", self_.name), outs)
+                base.start(self_)
+        mp.Process = HookedProcess
+        return base
+
+    def wrap(self, main_fn):
+        def main():
+            import multiprocessing as mp
+            base = self.install()
+            try:
+                main_fn()
+            finally:
+                mp.Process = base
+        return main
+
+
+def run_with_afterlife(main_fn, choose, log, after_steps=600):
+    """simrun.run, and then the processes the walk left behind keep being scheduled (a walk that raised because a worker was
+    refused does not take the workers it had created with it): out.log_at_return = length of the callback log when the walk
+    ended; what is logged after that happened behind the caller's back."""
+    out = simrun.Outcome()
+    with simmp.installed() as S:
+        with simrun.quiet():
+            S.spawn("main", main_fn, kind="main")
+            if hasattr(choose, "bind"):
+                choose.bind(S)
+            status, steps = simmp.run_schedule(S, choose, max_steps=15000, hang_rounds=30,
+                                               done=lambda: not S.alive("main") and S.pending("main") == ("done",))
+            a = S.actors["main"]
+            out.steps = steps
+            out.log_at_return = len(log)
+            if a["state"] == "done":
+                out.exc = a.get("exc")
+                out.status = "raised" if out.exc is not None else "returned"
+                out.workers_alive_at_return = [p.name for p in S.procs if p.started and S.alive(p.name)]
+                simmp.run_schedule(S, choose, max_steps=after_steps, hang_rounds=3)
+            else:
+                out.status = "hang" if status == "hang" else "limit"
+            out.trace = list(S.trace)
+    return out
 
 
 # ------------------------------------------------------------------------------------------------
 # monitors (the property's sentences) on a callback log
 # ------------------------------------------------------------------------------------------------
 
-def judge_walk(ctx, label, ops, log, status, exc, alive, rep, keyprefix="C01:walk-parallel"):
+def judge_walk(ctx, label, ops, log, status, exc, alive, rep, keyprefix="C01:walk-parallel", refused=False, at_return=None):
+    """refused: the environment refused a worker during this walk - then an exception is a legitimate end of the walk (and only
+    the sentences about what ran, how often and in which order are judged).  at_return: length of the log when the walk ended
+    (the rest was logged by processes it left behind); "returned" promises that everything had completed by then."""
     ops = set(ops)
     started = [p for tag, p, who in log if tag == "cb_start"]
-    ended = [p for tag, p, who in log if tag == "cb_end"]
+    ended = [p for tag, p, who in log[:at_return] if tag == "cb_end"]
     if status == "hang":
         return ctx.violation(keyprefix + ":hang", "%s: the walk never returns (%d of %d callbacks done)" % (label, len(ended), len(ops)), rep)
     if status == "limit":
         ctx.drift("%s: step limit reached" % label)
         return False
-    if status == "raised":
+    if status == "raised" and not refused:
         return ctx.violation(keyprefix + ":raised", "%s: the walk raised %r although no callback failed" % (label, exc), rep)
     bad = False
     extra = [p for p in started if p not in ops]
@@ -133,8 +322,8 @@ def judge_walk(ctx, label, ops, log, status, exc, alive, rep, keyprefix="C01:wal
     if len(started) != len(set(started)):
         bad = ctx.violation(keyprefix + ":twice", "%s: callback ran twice for %s" % (label, sorted({p for p in started if started.count(p) > 1})[:4]), rep) or bad
     missing = ops - set(ended)
-    if missing:
-        bad = ctx.violation(keyprefix + ":missing", "%s: the walk returned without running the callback for %s" % (label, sorted(missing)[:4]), rep) or bad
+    if missing and status == "returned":
+        bad = ctx.violation(keyprefix + ":missing", "%s: the walk returned without the callback for %s having run to completion" % (label, sorted(missing)[:4]), rep) or bad
     done = set()
     for tag, p, who in log:
         if tag == "cb_end":
@@ -144,7 +333,7 @@ def judge_walk(ctx, label, ops, log, status, exc, alive, rep, keyprefix="C01:wal
             if early:
                 bad = ctx.violation(keyprefix + ":children-first", "%s: callback for %s started before the callback of its live child %s had completed" % (label, p, early[0]), rep) or bad
                 break
-    if alive:
+    if alive and status == "returned":
         bad = ctx.violation(keyprefix + ":workers-alive", "%s: walk returned while workers %s were still running" % (label, alive), rep) or bad
     return bad
 
@@ -154,14 +343,17 @@ def judge_walk(ctx, label, ops, log, status, exc, alive, rep, keyprefix="C01:wal
 # ------------------------------------------------------------------------------------------------
 
 WPC_OF_OP = {"start": "idle", "rlock": "idle", "poll": "locked", "is_set": "empty", "cb_start": "cb", "cb_end": "running", "put": "put"}
-DPC_OF_OP = {"rlock": "loop", "poll": "loop", "close": "closing", "join_thread": "jointhread", "event_set": "setev", "join": "joinw", "put": "loop"}
+DPC_OF_OP = {"rlock": "loop", "poll": "loop", "close": "closing", "join_thread": "jointhread", "event_set": "setev", "join": "joinw", "put": "loop",
+             "proc_start": "loop"}
 
 
 def T(p):
     return tuple(p)
 
 
-def make_replay(nw, log):
+def make_replay(nw, log, hook=None):
+    """hook: a StartHook - the behaviours are WalkParStart's (worker-creation phase included: StartOK / StartFails), and the
+    projection carries the number of workers created and the phase."""
     def need(S, actor, opname, qname=None):
         p = S.pending(actor)
         if p is None or p[0] != opname or (qname is not None and (len(p) < 2 or p[1] != qname)):
@@ -171,6 +363,8 @@ def make_replay(nw, log):
         S.step("main", "ok")
         while S.pending("main") is not None and S.pending("main")[:2] == ("put", "q1"):
             S.step("main", "ok")
+        if hook is not None:
+            return
         for w in range(1, nw + 1):
             name = "w%d" % w
             if S.pending(name) is not None and S.pending(name)[0] == "start":
@@ -179,7 +373,12 @@ def make_replay(nw, log):
     def do_action(S, rec):
         act, who = rec["act"], rec["who"]
         w = "w%d" % who
-        if act == "FlushReady":
+        if act == "StartOK":
+            need(S, "main", "proc_start"); S.step("main", "ok")
+            need(S, w, "start"); S.step(w, "ok")
+        elif act == "StartFails":
+            need(S, "main", "proc_start"); S.step("main", "fail")
+        elif act == "FlushReady":
             S.step("feeder:q1:main", "flush")
         elif act == "FlushDone":
             S.step("feeder:q2:%s" % w, "flush")
@@ -240,7 +439,8 @@ def make_replay(nw, log):
             name = "w%d" % w
             a = S.actors.get(name)
             if a is None:
-                wpc.append("exited")        # "Nothing to do": no worker was ever created
+                # "Nothing to do": no worker was ever created; in the worker-creation phase (or after a refusal): not yet
+                wpc.append("idle" if (hook is not None and (hook.refused or (S.pending("main") or ("",))[0] == "proc_start")) else "exited")
                 continue
             if a["state"] == "done":
                 wpc.append("dead" if a.get("exitcode") else "exited")
@@ -253,38 +453,53 @@ def make_replay(nw, log):
         else:
             p = S.pending("main")
             st["dpc"] = DPC_OF_OP.get(p[0], "?" + p[0])
+        if hook is not None:
+            st["nborn"] = len([w for w in range(1, nw + 1) if "w%d" % w in S.actors])
+            st["phase"] = "failed" if hook.refused else ("starting" if (S.pending("main") or ("",))[0] == "proc_start" else "running")
         return st
 
     def expect(rec):
-        return {"rqBuf": [T(x) for x in rec["rqBuf"]], "rqPipe": [T(x) for x in rec["rqPipe"]], "rlock": rec["rlock"],
-                "dqPipe": [T(x) for x in rec["dqPipe"]], "dqSem": rec["dqSem"],
-                "dqBuf": [[T(x) for x in b] for b in rec["dqBuf"]], "doneEv": rec["doneEv"],
-                "started": [T(x) for x in rec["started"]], "ended": [T(x) for x in rec["ended"]],
-                "wpc": rec["wpc"], "dpc": rec["dpc"]}
+        ex = {"rqBuf": [T(x) for x in rec["rqBuf"]], "rqPipe": [T(x) for x in rec["rqPipe"]], "rlock": rec["rlock"],
+              "dqPipe": [T(x) for x in rec["dqPipe"]], "dqSem": rec["dqSem"],
+              "dqBuf": [[T(x) for x in b] for b in rec["dqBuf"]], "doneEv": rec["doneEv"],
+              "started": [T(x) for x in rec["started"]], "ended": [T(x) for x in rec["ended"]],
+              "wpc": rec["wpc"], "dpc": rec["dpc"]}
+        if hook is not None:
+            ex["nborn"], ex["phase"] = rec["nborn"], rec["phase"]
+        return ex
     return setup, do_action, project, expect
 
 
-def replay_walk(ctx, depth, nw, accepts, apexes, nbeh, faults="none", simdepth=400):
-    """Simulate WalkPar for the given family and replay every behaviour into the real _walk_parallel."""
-    extra = {"SimConf.tla": conf_module("SimConf", "WalkParSim", accepts, apexes, faults)}
-    cfg = SIMCFG % dict(depth=depth, nw=nw, cap=2 * nw)
+def replay_walk(ctx, depth, nw, accepts, apexes, nbeh, faults="none", simdepth=400, start=None):
+    """Simulate WalkPar for the given family and replay every behaviour into the real _walk_parallel.
+    start: the values of failAt - the behaviours are those of WalkParStart (worker creation, the k-th start refused)."""
+    if start is None:
+        extra = {"SimConf.tla": conf_module("SimConf", "WalkParSim", accepts, apexes, faults)}
+        cfg = SIMCFG % dict(depth=depth, nw=nw, cap=2 * nw)
+    else:
+        extra = {"SimConf.tla": conf_module("SimConf", "WalkParStartSim", accepts, apexes, faults, start=start)}
+        cfg = START_SIMCFG % dict(depth=depth, nw=nw, cap=2 * nw)
     r = ctx.tlc("SimConf", extra=extra, cfg_text=cfg, simulate=nbeh, depth=simdepth, workers=1, timeout=600)
-    behs = parse_sim_stream(r.json_lines("TR"), ["acc", "apex", "faults"])
+    behs = parse_sim_stream(r.json_lines("TR"), ["acc", "apex", "faults"] + ([] if start is None else ["failAt"]))
     okc, drifted = 0, False
     for b in behs:
         acc = frozenset(T(p) for p in b[0]["acc"])
         apex = T(b[0]["apex"])
         fl = {T(p) for p in b[0]["faults"]}
         log = []
-        setup, do_action, project, expect = make_replay(nw, log)
+        hook = None if start is None else StartHook(b[0]["failAt"])
+        setup, do_action, project, expect = make_replay(nw, log, hook)
+        main = walk_main(depth, acc, apex, nw, log, fl)
         try:
-            simrun.replay(walk_main(depth, acc, apex, nw, log, fl), b, setup, do_action, project, expect)
+            simrun.replay(main if hook is None else hook.wrap(main), b, setup, do_action, project, expect)
             okc += 1
             ctx.trace_ok()
             ctx.distinct(("replay", depth, nw, tuple(sorted(acc)), apex, tuple((x["act"], x["who"]) for x in b[1:])))
+            if hook is not None and hook.refused:
+                ctx.add_note("replayed_behaviours_with_a_refused_worker")
         except simrun.ReplayMismatch as e:
             if not drifted:
-                ctx.drift("walk d%d w%d: replay of a TLC behaviour diverged: %s %s" % (depth, nw, e, e.detail))
+                ctx.drift("walk d%d w%d%s: replay of a TLC behaviour diverged: %s %s" % (depth, nw, "" if start is None else " (worker creation, start refused: %s)" % b[0]["failAt"], e, e.detail))
                 drifted = True
             ctx.add_note("replay_divergences")
     if behs:
@@ -316,6 +531,7 @@ def ops_table(ctx, depth, confs, sparse=False):
 
 
 def explore_walk(ctx, depth, confs, nws, policies, runs):
+    """Returns {(accept, apex): operations as TLC computed them}."""
     table = ops_table(ctx, depth, [(a, x) for a, x, g in confs])
     for (acc, apex, generic), row in zip(confs, table):
         ops = row["ops"]
@@ -338,6 +554,99 @@ def explore_walk(ctx, depth, confs, nws, policies, runs):
                                out.workers_alive_at_return, rep)
                     if ops:
                         ctx.distinct(("sched", depth, nw, apex, tuple((a, o) for a, _op, o in out.trace)))
+    return {(acc, apex): row["ops"] for (acc, apex, _g), row in zip(confs, table)}
+
+
+def explore_geometry(ctx, depth, confs, table, boxes, box_depth, nws, policies, runs):
+    """Filters that decide from the CORNERS the tile is shown with (what every footprint filter of the library does), for TOAST
+    pyramids in both coordinate systems x sub-pyramid apexes, serial and parallel:
+      (a) the position filters of `confs` (depth `depth`, operations in `table`) lifted to geometry in the pyramid's system;
+      (b) latitude/longitude boxes through samplers._latlon_tile_filter: the accept set is the filter evaluated on the reference
+          tile of every position IN THE PYRAMID'S OWN coordinate system; TLC computes the live set and operations from it.
+    The same box accepts different positions in the two systems, so a walk that shows the filter tiles of the other system (or of
+    no particular one) is not hidden by a symmetric input."""
+    cases = []
+    for csname, cs in coordsystems():
+        for acc, apex in confs:
+            cases.append(dict(cs=csname, kind="position filter lifted to the centres of the tile corners", depth=depth, acc=acc, apex=apex, ops=table[(acc, apex)],
+                              build=(lambda cs=cs, csname=csname, acc=acc, apex=apex: build_geo(depth, lifted_filter(csname, cs, depth, acc), cs, apex))))
+    boxconfs = []
+    for csname, cs in coordsystems():
+        for box in boxes:
+            acc = box_accept(csname, cs, box_depth, box)
+            reach = {ROOT}
+            for n in range(1, box_depth + 1):
+                reach |= {q_ for q_ in acc if q_[0] == n and (n - 1, q_[1] // 2, q_[2] // 2) in reach}
+            l2in = sorted(q_ for q_ in reach if q_[0] == 2)
+            l2out = sorted(q_ for q_ in level(2) if q_ not in reach)
+            apexes = [ROOT] + sorted(q_ for q_ in reach if q_[0] == 1) + ctx.rng.sample(l2in, min(2, len(l2in))) + ctx.rng.sample(l2out, min(1, len(l2out)))
+            l3in = sorted(q_ for q_ in reach if q_[0] == 3)
+            apexes += ctx.rng.sample(l3in, min(1, len(l3in)))
+            for apex in apexes:
+                boxconfs.append((csname, cs, box, acc, apex))
+    if boxconfs:
+        btable = ops_table(ctx, box_depth, [(acc, apex) for _n, _c, _b, acc, apex in boxconfs], sparse=True)
+        for (csname, cs, box, acc, apex), row in zip(boxconfs, btable):
+            cases.append(dict(cs=csname, kind="latitude/longitude box lon [%.3f, %.3f] lat [%.3f, %.3f] rad (samplers._latlon_tile_filter)" % box, depth=box_depth,
+                              acc=acc, apex=apex, ops=row["ops"], box=box,
+                              build=(lambda cs=cs, box=box, apex=apex: build_geo(box_depth, box_filter(box), cs, apex))))
+    for c in cases:
+        ops, d, apex = c["ops"], c["depth"], c["apex"]
+        what = "%s TOAST pyramid of depth %d, sub-pyramid apex %s, tile filter = %s" % (c["cs"], d, apex, c["kind"])
+        rep0 = {"coordsys": c["cs"], "filter": c["kind"], "box": c.get("box"), "depth": d, "apex": apex, "accept_on_reference_geometry": sorted(c["acc"]), "seed": ctx.seed}
+        ser = []
+        with simrun.quiet():
+            c["build"]().walk(lambda pos: ser.append(T(pos)), parallel=1)
+        ctx.count()
+        judge_walk(ctx, "serial walk, " + what, ops, [(t, p, None) for p in ser for t in ("cb_start", "cb_end")], "returned", None, [], rep0,
+                   keyprefix="C01:walk-serial-geometry-filter")
+        for nw in nws:
+            for pol in policies:
+                for k in range(runs):
+                    log = []
+                    out = simrun.run(walk_main(d, c["acc"], apex, nw, log, build=c["build"]), simrun.POLICIES[pol](ctx.rng))
+                    ctx.count()
+                    rep = dict(rep0, workers=nw, policy=pol, trace_tail=[list(map(str, t)) for t in out.trace[-40:]])
+                    judge_walk(ctx, "parallel walk (%d workers, %s), %s" % (nw, pol, what), ops, log, out.status, out.exc, out.workers_alive_at_return, rep,
+                               keyprefix="C01:walk-parallel-geometry-filter")
+        if ops:
+            ctx.distinct(("geometry", c["cs"], d, apex, c.get("box"), tuple(sorted(c["acc"]))[:8]))
+            ctx.add_note("geometry_filter_cases_%s" % c["cs"])
+    ex = [c for c in cases if c.get("box") and len(c["ops"]) >= 3 and c["apex"] != ROOT]
+    if ex:
+        c = ex[0]
+        ctx.sample({"geometry_filter_case": {"coordsys": c["cs"], "box_rad": c["box"], "depth": c["depth"], "apex": c["apex"], "operations_from_tlc": sorted(c["ops"])}})
+
+
+def explore_start_faults(ctx, depth, confs, table, nws, policies, runs):
+    """The environment action StartFails of spec/WalkParStart.tla on the real code: Process.start of the k-th worker raises
+    OSError (EAGAIN / ENOMEM), for every k, under the schedule policies (creation of the later workers interleaved with the steps
+    of the earlier ones).  Admissible: the walk raises, or it returns with everything done; never a callback twice, for a
+    non-operation, or before a live child's has completed - including what the workers created before the refusal do after
+    the walk has ended."""
+    for acc, apex, generic in confs:
+        ops = table[(acc, apex)]
+        for nw in nws:
+            for k in range(1, nw + 1):
+                for pol in policies:
+                    for r in range(runs):
+                        err = ("EAGAIN", "ENOMEM")[(k + r + nw) % 2]
+                        log = []
+                        hook = StartHook(k, err)
+                        out = run_with_afterlife(hook.wrap(walk_main(depth, acc, apex, nw, log, generic=generic)), simrun.POLICIES[pol](ctx.rng), log)
+                        ctx.count()
+                        rep = {"depth": depth, "accept": sorted(acc), "apex": apex, "generic": generic, "workers": nw, "start_refused": k, "oserror": err, "policy": pol,
+                               "seed": ctx.seed, "walk_ended": out.status, "callbacks_logged_when_the_walk_ended": getattr(out, "log_at_return", None),
+                               "trace_tail": [list(map(str, t)) for t in out.trace[-60:]]}
+                        judge_walk(ctx, "parallel walk (%d workers, %s) depth %d apex %s during which the start of worker %d is refused (OSError %s)" % (nw, pol, depth, apex, k, err),
+                                   ops, log, out.status, out.exc, out.workers_alive_at_return, rep, keyprefix="C01:walk-parallel-start-refused",
+                                   refused=hook.refused, at_return=getattr(out, "log_at_return", None))
+                        if hook.refused:
+                            ctx.distinct(("start-refused", depth, nw, k, apex, tuple((a, o) for a, _op, o in out.trace)))
+                            ctx.add_note("walks_with_a_refused_worker_ending_%s" % out.status)
+                            left = len(log) - (out.log_at_return or 0) if out.status in ("raised", "returned") else 0
+                            if left:
+                                ctx.add_note("callback_events_by_workers_left_behind", left)
 
 
 def deep_sparse_cases(rng, ncases):
@@ -524,8 +833,10 @@ def explore_history(ctx, acc, apex, depths, nw=2):
         ctx.distinct(("history", tuple(sorted(acc)), apex, tuple(hist)))
 
 
-def real_walk(ctx, depth, acc, apex, parallel, generic=False):
-    """Real processes; callbacks draw tickets from a shared counter (before the work at start, after it at end)."""
+def real_walk(ctx, depth, acc, apex, parallel, generic=False, refuse=None):
+    """Real processes; callbacks draw tickets from a shared counter (before the work at start, after it at end).
+    refuse = k: the k-th Process.start of the walk raises OSError(EAGAIN) (no process is forked); the workers forked before
+    are given time to do what they will before the logs are read."""
     import multiprocessing as mp
     d = ctx.mkdtemp("realwalk")
     ticket = mp.Value("i", 0)
@@ -547,13 +858,27 @@ def real_walk(ctx, depth, acc, apex, parallel, generic=False):
 
     def body():
         st, ex = "returned", None
+        nstart = [0]
+        if refuse:
+            real_process = mp.Process
+
+            class RefusedProcess(real_process):
+                def start(self):
+                    nstart[0] += 1
+                    if nstart[0] == refuse:
+                        raise OSError(*START_ERRORS["EAGAIN"])
+                    real_process.start(self)
+            mp.Process = RefusedProcess
         with simrun.quiet():
             try:
                 build_pyramid(depth, acc, apex, generic).walk(cb, parallel=parallel)
             except Exception as e:  # noqa
                 st, ex = "raised", repr(e)
-            al = [c.pid for c in mp.active_children() if c.is_alive()]
-        return st, ex, al
+            al = [c.pid for c in mp.active_children() if c.is_alive()] if st == "returned" else []
+            if refuse:
+                import time
+                time.sleep(2.5)     # only to let the workers left behind show what they do; no verdict depends on it
+        return st, ex, al, nstart[0]
     from lib import guard
     kind, val = guard.run_guarded(body, 120)
     if kind == "timeout":
@@ -561,7 +886,8 @@ def real_walk(ctx, depth, acc, apex, parallel, generic=False):
     elif kind == "raised":
         status, exc, alive = "raised", val, []
     else:
-        status, exc, alive = val
+        status, exc, alive, nstart = val
+    refused = bool(refuse) and kind == "ok" and nstart >= refuse
     ev = []
     for fn in os.listdir(d):
         for line in open(os.path.join(d, fn)):
@@ -571,9 +897,13 @@ def real_walk(ctx, depth, acc, apex, parallel, generic=False):
     ev.sort()
     log = [(tag, p, pid) for _t, tag, p, pid in ev]
     ctx.count()
-    ctx.distinct(("real", depth, parallel, apex, tuple(sorted(acc))))
-    bad = judge_walk(ctx, "real-process walk (%d workers) depth %d apex %s" % (parallel, depth, apex), table[0]["ops"], log, status, exc, alive,
-                     {"depth": depth, "accept": sorted(acc), "apex": apex, "workers": parallel, "real_processes": True}, keyprefix="C01:walk-parallel-real")
+    ctx.distinct(("real", depth, parallel, apex, tuple(sorted(acc)), refuse))
+    bad = judge_walk(ctx, "real-process walk (%d workers%s) depth %d apex %s" % (parallel, ", start of worker %d refused with OSError EAGAIN" % refuse if refuse else "", depth, apex),
+                     table[0]["ops"], log, status, exc, alive,
+                     {"depth": depth, "accept": sorted(acc), "apex": apex, "workers": parallel, "real_processes": True, "start_refused": refuse},
+                     keyprefix="C01:walk-parallel-real", refused=refused)
+    if refuse:
+        ctx.add_note("real_process_walks_with_a_refused_worker_ending_%s" % status)
     # code -> spec: the recorded trace must be a behaviour of WalkPar (TLC finds the silent steps in between)
     if status == "returned" and not generic and len(log) <= 40:
         pids = []
@@ -608,8 +938,11 @@ def run(ctx):
     q = ctx.quick
     ctx.rule = ("TLC explores spec/WalkPar.tla exhaustively (every interleaving of dispatcher, feeder threads, worker sub-steps, timeouts) for a family "
                 "of depth-2 filters x apexes with 2 (thorough: 3) workers; simulated behaviours are replayed into the real _walk_parallel with state "
-                "comparison after each step; the real walk is explored under seeded random/adversarial schedules and with real processes. distinct = "
-                "distinct full schedules / replayed behaviours with at least one operation")
+                "comparison after each step; the real walk is explored under seeded random/adversarial schedules and with real processes. Inputs also "
+                "include filters deciding from tile corners (lifted position filters, seeded latitude/longitude boxes) in both TOAST coordinate systems x "
+                "apexes, the accept set being the filter on the reference geometry of the pyramid's own system; the environment also refuses the k-th "
+                "worker start (spec/WalkParStart.tla exhaustive for every k; replayed; injected for every k under the schedule policies). distinct = "
+                "distinct full schedules / replayed behaviours / geometry cases with at least one operation")
     l1 = level(1)
     full2 = with_kids(l1, 2)
     # NB: the family must not be symmetric under exchanging x and y (slots 1 and 2), or index mix-ups stay invisible
@@ -620,14 +953,21 @@ def run(ctx):
     apexes = [ROOT, (1, 1, 0), (2, 0, 0)]
     # (1) exhaustive
     import concurrent.futures
-    pool = concurrent.futures.ThreadPoolExecutor(max_workers=2)
+    pool = concurrent.futures.ThreadPoolExecutor(max_workers=3)
     pending = []
     if q:
         # two independent halves of the family, side by side with the replay and exploration below
         for part in (fam[:3], fam[3:5]):
             pending.append(pool.submit(lambda part=part: ctx.tlc("Conf", extra={"Conf.tla": conf_module("Conf", "WalkPar", part, [ROOT, (1, 1, 0)])},
-                                                                 cfg_text=CFG % dict(depth=2, nw=2, cap=4), timeout=900, workers=6)))
+                                                                 cfg_text=CFG % dict(depth=2, nw=2, cap=4), timeout=900, workers=5)))
+        # (1') the worker-creation phase with the k-th start refused (k = 0: none), both admissible outcomes
+        pending.append(pool.submit(lambda: ctx.tlc("SConf", extra={"SConf.tla": conf_module("SConf", "WalkParStart", [fam[1], fam[3]], [ROOT], start=[0, 1, 2])},
+                                                   cfg_text=START_CFG % dict(depth=2, nw=2, cap=4), timeout=900, workers=4)))
     else:
+        ctx.tlc("SConf", extra={"SConf.tla": conf_module("SConf", "WalkParStart", fam[:6], apexes, "one", start=[0, 1, 2])},
+                cfg_text=START_CFG % dict(depth=2, nw=2, cap=4), timeout=3000)
+        ctx.tlc("SConf", extra={"SConf.tla": conf_module("SConf", "WalkParStart", [fam[1], fam[3], fam[4]], [ROOT, (1, 1, 0)], start=[0, 1, 2, 3])},
+                cfg_text=START_CFG % dict(depth=2, nw=3, cap=6), timeout=3000)
         allpat = [with_kids(list(s), 2) for r in range(5) for s in __import__("itertools").combinations(l1, r)] + fam[4:]
         ctx.tlc("Conf", extra={"Conf.tla": conf_module("Conf", "WalkPar", allpat, apexes, "one")}, cfg_text=CFG % dict(depth=2, nw=2, cap=4), timeout=3000)
         ctx.tlc("Conf", extra={"Conf.tla": conf_module("Conf", "WalkPar", fam[:5], [ROOT, (1, 1, 0)])}, cfg_text=CFG % dict(depth=2, nw=3, cap=6), timeout=3000)
@@ -635,15 +975,30 @@ def run(ctx):
         ctx.tlc("Conf", extra={"Conf.tla": conf_module("Conf", "WalkPar", d3, [ROOT, (1, 0, 0)])}, cfg_text=CFG % dict(depth=3, nw=2, cap=4), timeout=3000)
     # (2) replay
     ok, drift = replay_walk(ctx, 2, 2, fam[:6], apexes[:2], 60 if q else 600)
+    _, drift_s = replay_walk(ctx, 2, 2, [fam[1], fam[3], fam[4]], apexes[:2], 24 if q else 300, start=[0, 1, 2])
     drift3 = False
     if not q:
+        replay_walk(ctx, 2, 3, [fam[1], fam[3]], apexes[:2], 150, start=[1, 2, 3])
         _, drift3 = replay_walk(ctx, 2, 3, fam[:5], apexes[:2], 200)
         d3 = [with_kids([(1, 0, 0), (1, 1, 1)], 3) - {(3, 0, 0), (3, 7, 7), (2, 1, 1)}, with_kids(l1, 3)]
         replay_walk(ctx, 3, 2, d3, [ROOT, (1, 1, 1), (2, 0, 1)], 100, simdepth=1500)
     # (3) exploration of the real code
     confs = [(a, x, False) for a in fam[:6] for x in (apexes if not q else apexes[:2])] + [(full2, ROOT, True), (full2, (1, 0, 1), True)]
     runs = (2 if q else 12) * (4 if (drift or drift3) else 1)
-    explore_walk(ctx, 2, confs, [2, 3] if q else [2, 3, 5], ["random", "starve-feeder", "eager-timeout", "stall-w1-cb", "main-last"] if q else list(simrun.POLICIES), runs)
+    table2 = explore_walk(ctx, 2, confs, [2, 3] if q else [2, 3, 5], ["random", "starve-feeder", "eager-timeout", "stall-w1-cb", "main-last"] if q else list(simrun.POLICIES), runs)
+    # (5) filters deciding from the tile's corners x both coordinate systems x apexes (operations: the same TLC table / TLC's sparse live set)
+    rb = ctx.rng
+    boxes = []
+    for _ in range(2 if q else 8):
+        lon0, lat0 = rb.uniform(-3.1, 3.1), rb.uniform(-1.35, 0.9)
+        boxes.append((round(lon0, 4), round(lon0 + rb.uniform(0.25, 1.4), 4), round(lat0, 4), round(min(lat0 + rb.uniform(0.2, 0.9), 1.5), 4)))
+    explore_geometry(ctx, 2, [(a, x) for a in fam[:6] for x in (apexes if not q else apexes[:2])], table2, boxes, 4 if q else 5,
+                     [3] if q else [2, 3], ["random"] if q else ["random", "stall-w1-cb", "main-last"], 1 if q else 2)
+    # (6) the k-th worker refused by the operating system
+    sconfs = [(full2, ROOT, True), (fam[3], ROOT, False), (fam[1], (1, 1, 0), False)] + ([] if q else [(fam[4], ROOT, False), (fam[5], ROOT, False)])
+    explore_start_faults(ctx, 2, sconfs, table2, [2, 3] if q else [2, 3, 5],
+                         ["random", "main-last", "stall-w1-cb"] if q else ["random", "main-last", "stall-w1-cb", "main-first", "starve-feeder", "late-timeout", "eager-timeout"],
+                         (2 if q else 6) * (4 if drift_s else 1))
     acc3 = with_kids([(1, 0, 0), (1, 1, 1)], 3) - {(3, 0, 0), (3, 7, 7), (2, 1, 1), (2, 2, 2)}
     explore_walk(ctx, 3, [(acc3, ROOT, False), (acc3, (1, 1, 1), False), (with_kids(l1, 3), (2, 1, 2), True)], [2, 4],
                  ["random", "starve-feeder", "stall-w1-cb"], 2 if q else 10)
@@ -663,6 +1018,8 @@ def run(ctx):
     # (4) real processes
     real_walk(ctx, 2, fam[4], ROOT, 2)
     if not q:
+        real_walk(ctx, 3, with_kids(l1, 3), ROOT, 3, generic=True, refuse=3)
+        real_walk(ctx, 2, fam[3], ROOT, 2, refuse=2)
         real_walk(ctx, 3, acc3, ROOT, 3)
         real_walk(ctx, 2, full2, (1, 1, 0), 5, generic=True)
         real_walk(ctx, 3, with_kids(l1, 3), ROOT, 4, generic=True)
@@ -671,3 +1028,6 @@ def run(ctx):
     pool.shutdown()
     ctx.assume("CPython's multiprocessing.Queue/Event/Process behave like the fake ones of lib/simmp.py; the real-process runs sample that")
     ctx.assume("the serial walk's conformance to the same Live/Ops definitions is the subject of C13 (spec/Reduce.tla)")
+    ctx.assume("the reference geometry of a coordinate system is toast.create_single_tile(pos, coordsys) (judged against TLC's lattice by C04); a tile filter "
+               "is a pure function of the corners it is shown")
+    ctx.assume("a refused worker start raises OSError out of Process.start and leaves no process behind (what fork() does on EAGAIN / ENOMEM)")
